@@ -1,16 +1,215 @@
-import Bpmn.Model.Timer
+import Bpmn.Lemmas.Timer
 /-!
-# C13 — timers (minimal first version)
+# C13 — timers never fire early and fire exactly as often as their definition says
+
+Property theorems only. Model: `Bpmn.Model.Timer` (port of pkg/clock/mock.go and pkg/timer/timer.go).
+A history is a `List Ev` over `advance d | set t | cancel | tick choice`: ANY interleaving of clock
+jumps (forwards or backwards), cancellation and steps of the timer goroutine, where `choice`
+resolves Go's `select` among ready cases. `exec d now0 evs` is the state after history `evs` of a
+timer created from definition `d` at clock reading `now0`; `fired` lists the firings in order, each
+with the clock reading its wake-up carried (`wake`) and `clock.Now()` at the firing (`clock`).
+All statements are for every definition, every history of any length and every choice.
 -/
 namespace Bpmn.Props.C13
-open Bpmn.Model.Timer
+open Bpmn.Model.Timer Bpmn.Lemmas.Timer
+
+/-- a firing was sent while the goroutine had not yet returned: phase `stopped` is final -/
+def Stopped (s : St) : Prop := ∃ b, s.ph = .stopped b
+
+/-- the full statement of C13 on the model, kept visible -/
+def C13_statement : Prop :=
+  -- (a) never early: the k-th firing (from 0) carries a clock reading ≥ origin + (k+1)·interval
+  --     (origin = the date / now+duration / the cycle's start; interval = 0 for date and duration)
+  (∀ (d : Def) (now0 : Int) (evs : List Ev), 0 ≤ d.interval →
+      ∀ (k : Nat) (f : Firing), (exec d now0 evs).fired[k]? = some f →
+        d.origin now0 + d.interval * ((k : Int) + 1) ≤ f.wake) ∧
+  --     and when the clock never goes backwards, the clock at the firing is not before that reading
+  (∀ (d : Def) (now0 : Int) (evs : List Ev), MonoEvs now0 evs →
+      ∀ f ∈ (exec d now0 evs).fired, f.wake ≤ f.clock) ∧
+  -- (b) a date or duration timer fires at most once, exactly once when it has completed, and it
+  --     does fire as soon as the goroutine runs with the clock at or past the due time
+  (∀ (d : Def) (now0 : Int) (evs : List Ev), d.isCycle = false →
+      (exec d now0 evs).fired.length ≤ 1 ∧
+      ((exec d now0 evs).ph = .stopped true → (exec d now0 evs).fired.length = 1)) ∧
+  (∀ (d : Def) (now0 : Int) (evs : List Ev) (T : Int) (k : Nat), d.isCycle = false →
+      ¬ Stopped (exec d now0 evs) → (exec d now0 evs).cancelled = false → d.origin now0 ≤ T →
+      (exec d now0 (evs ++ [.set T, .tick k])).ph = .stopped true ∧
+      (exec d now0 (evs ++ [.set T, .tick k])).fired.length = 1) ∧
+  -- (c) a cycle with n ≥ 0 repetitions never fires more than n times; when it has completed
+  --     without cancellation and has no end bound it has fired exactly n times; and while it is
+  --     running, not cancelled, without end bound, every clock setting that reaches
+  --     (last delivered time + interval) yields exactly one more firing at the next goroutine step
+  (∀ (d : Def) (now0 : Int) (evs : List Ev), d.isCycle = true → 0 ≤ d.reps →
+      ((exec d now0 evs).fired.length : Int) ≤ d.reps) ∧
+  (∀ (d : Def) (now0 : Int) (evs : List Ev), d.isCycle = true → 0 ≤ d.reps → d.endB = none →
+      (exec d now0 evs).ph = .stopped true → (exec d now0 evs).cancelled = false →
+      ((exec d now0 evs).fired.length : Int) = d.reps) ∧
+  (∀ (d : Def) (now0 : Int) (evs : List Ev) (reps t : Int) (c : Nat) (ce : Option Nat) (T : Int)
+      (k : Nat), d.endB = none → (exec d now0 evs).ph = .loop reps t c ce →
+      (exec d now0 evs).cancelled = false → t + d.interval ≤ T →
+      (exec d now0 (evs ++ [.set T, .tick k])).fired.length = (exec d now0 evs).fired.length + 1) ∧
+  -- (d) firings are at least one interval apart (every earlier/later pair, hence consecutive ones)
+  (∀ (d : Def) (now0 : Int) (evs : List Ev), 0 ≤ d.interval →
+      (exec d now0 evs).fired.Pairwise (fun a b => a.wake + d.interval ≤ b.wake)) ∧
+  -- (e) no firing at or after the end bound
+  (∀ (d : Def) (now0 : Int) (evs : List Ev) (e : Int), d.endB = some e →
+      ∀ f ∈ (exec d now0 evs).fired, f.clock < e) ∧
+  -- (f) after its last firing / after the goroutine has observed the cancellation (it has
+  --     returned) nothing fires any more, whatever the clock does; and a cancellation that arrives
+  --     while the goroutine is blocked is observed at its very next step, whatever `select` picks
+  (∀ (d : Def) (now0 : Int) (evs more : List Ev), Stopped (exec d now0 evs) →
+      (exec d now0 (evs ++ more)).fired = (exec d now0 evs).fired ∧
+      (exec d now0 (evs ++ more)).ph = (exec d now0 evs).ph) ∧
+  (∀ (d : Def) (now0 : Int) (evs more : List Ev) (k : Nat), blocked d (exec d now0 evs) = true →
+      (exec d now0 (evs ++ .cancel :: .tick k :: more)).fired = (exec d now0 evs).fired)
+
+/-! ## the invariants on every history -/
+
+theorem exec_inv (d : Def) (now0 : Int) (evs : List Ev) (hI : 0 ≤ d.interval) :
+    Book d (exec d now0 evs) ∧ Timing d (d.origin now0) (exec d now0 evs) :=
+  inv_run d _ evs _ hI (book_init d now0) (timing_init d now0)
+
+theorem exec_book (d : Def) (now0 : Int) (evs : List Ev) : Book d (exec d now0 evs) :=
+  book_run d evs _ (book_init d now0)
+
+theorem exec_live (d : Def) (now0 : Int) (evs : List Ev) :
+    Live d (d.origin now0) (exec d now0 evs) :=
+  live_run d _ evs _ (live_init d now0)
+
+theorem exec_append (d : Def) (now0 : Int) (e1 e2 : List Ev) :
+    exec d now0 (e1 ++ e2) = run d (exec d now0 e1) e2 := run_append d _ e1 e2
+
+/-! ## (a) never early -/
+
+theorem never_early (d : Def) (now0 : Int) (evs : List Ev) (hI : 0 ≤ d.interval)
+    (k : Nat) (f : Firing) (hk : (exec d now0 evs).fired[k]? = some f) :
+    d.origin now0 + d.interval * ((k : Int) + 1) ≤ f.wake :=
+  (exec_inv d now0 evs hI).2.2.2.1 k f hk
+
+/-- date and duration timers: no firing carries a reading before the due time -/
+theorem never_early_one_shot (d : Def) (now0 : Int) (evs : List Ev) (hd : d.isCycle = false)
+    (f : Firing) (hf : f ∈ (exec d now0 evs).fired) : d.origin now0 ≤ f.wake := by
+  have hI : d.interval = 0 := interval_of_not_cycle d hd
+  obtain ⟨k, hk⟩ := List.getElem?_of_mem hf
+  have := never_early d now0 evs (by omega) k f hk
+  simpa [hI] using this
+
+theorem wake_le_clock (d : Def) (now0 : Int) (evs : List Ev) (hm : MonoEvs now0 evs)
+    (f : Firing) (hf : f ∈ (exec d now0 evs).fired) : f.wake ≤ f.clock :=
+  (mono_run d evs _ (mono_init d now0) (by rw [init_now]; exact hm)).2 f hf
+
+/-! ## (b) date / duration: exactly once -/
+
+theorem one_shot_once (d : Def) (now0 : Int) (evs : List Ev) (hd : d.isCycle = false) :
+    (exec d now0 evs).fired.length ≤ 1 ∧
+    ((exec d now0 evs).ph = .stopped true → (exec d now0 evs).fired.length = 1) := by
+  obtain ⟨_, hp⟩ := exec_book d now0 evs
+  cases hph : (exec d now0 evs).ph with
+  | oneShot c => simp only [hph] at hp; simp [hp.2]
+  | waitStart c st => simp only [hph] at hp; simp [hp.2]
+  | loop r t c ce => simp only [hph] at hp; rw [hd] at hp; simp at hp
+  | stopped b =>
+    simp only [hph] at hp
+    obtain ⟨h1, h2⟩ := hp.1 hd
+    exact ⟨h1, fun hb => h2 (by simpa using hb)⟩
+
+theorem one_shot_fires (d : Def) (now0 : Int) (evs : List Ev) (T : Int) (k : Nat)
+    (hd : d.isCycle = false) (hns : ¬ Stopped (exec d now0 evs))
+    (hnc : (exec d now0 evs).cancelled = false) (hT : d.origin now0 ≤ T) :
+    (exec d now0 (evs ++ [.set T, .tick k])).ph = .stopped true ∧
+    (exec d now0 (evs ++ [.set T, .tick k])).fired.length = 1 := by
+  rw [exec_append]
+  generalize hs : exec d now0 evs = s at *
+  have hb : Book d s := hs ▸ exec_book d now0 evs
+  have hl : Live d (d.origin now0) s := hs ▸ exec_live d now0 evs
+  obtain ⟨_, hp⟩ := hb
+  cases hph : s.ph with
+  | stopped b => exact absurd ⟨b, hph⟩ hns
+  | waitStart c st => simp only [hph] at hp; rw [hd] at hp; simp at hp
+  | loop r t c ce => simp only [hph] at hp; rw [hd] at hp; simp at hp
+  | oneShot c =>
+    simp only [hph] at hp
+    simp only [Live, hph] at hl
+    have hr := armed_set_ready s.m T c _ hl hT
+    obtain ⟨v, hv⟩ := Option.isSome_iff_exists.mp hr
+    simp [run, apply, step, hph, hnc, hv, altIf, pick_single, hp.2]
+
+/-! ## (c) cycles: never more than n, exactly n at completion, one more at every due setting -/
+
+theorem cycle_count_le (d : Def) (now0 : Int) (evs : List Ev) (hd : d.isCycle = true)
+    (hn : 0 ≤ d.reps) : ((exec d now0 evs).fired.length : Int) ≤ d.reps := by
+  obtain ⟨_, hp⟩ := exec_book d now0 evs
+  cases hph : (exec d now0 evs).ph with
+  | oneShot c => simp only [hph] at hp; simp [hp.2, hn]
+  | waitStart c st => simp only [hph] at hp; simp [hp.2, hn]
+  | loop r t c ce =>
+    simp only [hph] at hp
+    obtain ⟨h1, h2, _⟩ := hp.2.2.2 hn
+    omega
+  | stopped b => simp only [hph] at hp; exact (hp.2 hd hn).1
+
+theorem cycle_count_exact (d : Def) (now0 : Int) (evs : List Ev) (hd : d.isCycle = true)
+    (hn : 0 ≤ d.reps) (hend : d.endB = none) (hph : (exec d now0 evs).ph = .stopped true)
+    (hnc : (exec d now0 evs).cancelled = false) :
+    ((exec d now0 evs).fired.length : Int) = d.reps := by
+  obtain ⟨_, hp⟩ := exec_book d now0 evs
+  simp only [hph] at hp
+  exact (hp.2 hd hn).2 trivial hnc hend
+
+theorem cycle_progress (d : Def) (now0 : Int) (evs : List Ev) (reps t : Int) (c : Nat)
+    (ce : Option Nat) (T : Int) (k : Nat) (hend : d.endB = none)
+    (hph : (exec d now0 evs).ph = .loop reps t c ce)
+    (hnc : (exec d now0 evs).cancelled = false) (hT : t + d.interval ≤ T) :
+    (exec d now0 (evs ++ [.set T, .tick k])).fired.length =
+      (exec d now0 evs).fired.length + 1 := by
+  rw [exec_append]
+  generalize hs : exec d now0 evs = s at *
+  have hl : Live d (d.origin now0) s := hs ▸ exec_live d now0 evs
+  simp only [Live, hph] at hl
+  have hce : ce = none := hl.2 hend
+  subst hce
+  have hr := armed_set_ready s.m T c _ hl.1 hT
+  obtain ⟨v, hv⟩ := Option.isSome_iff_exists.mp hr
+  simp [run, apply, step, hph, hnc, hv, altIf, pick_single, hend, iterate_fired]
+
+/-- the start of a cycle: once the clock is set at or past the start, the next goroutine step
+leaves the start phase (into the loop, or completed when n = 0) -/
+theorem cycle_starts (d : Def) (now0 : Int) (evs : List Ev) (c : Nat) (st : Int) (T : Int) (k : Nat)
+    (hph : (exec d now0 evs).ph = .waitStart c st)
+    (hnc : (exec d now0 evs).cancelled = false) (hT : d.origin now0 ≤ T) :
+    ((exec d now0 (evs ++ [.set T, .tick k])).ph = .stopped true ∧ d.reps = 0) ∨
+    ∃ c' ce', (exec d now0 (evs ++ [.set T, .tick k])).ph = .loop d.reps st c' ce' := by
+  rw [exec_append]
+  generalize hs : exec d now0 evs = s at *
+  have hl : Live d (d.origin now0) s := hs ▸ exec_live d now0 evs
+  simp only [Live, hph] at hl
+  have hr := armed_set_ready s.m T c _ hl.2 hT
+  simp only [run, List.foldl_cons, List.foldl_nil, apply, step, hph, hnc, hr, altIf, if_true,
+    List.nil_append, pick_single, Option.getD_some, Bool.false_eq_true, if_false]
+  unfold iterate
+  by_cases h0 : d.reps = 0
+  · left; simp [h0]
+  · right
+    simp only [h0, if_false]
+    cases d.endB <;> simp
+
+/-! ## (d) spacing, (e) end bound -/
+
+theorem cycle_spacing (d : Def) (now0 : Int) (evs : List Ev) (hI : 0 ≤ d.interval) :
+    (exec d now0 evs).fired.Pairwise (fun a b => a.wake + d.interval ≤ b.wake) :=
+  (exec_inv d now0 evs hI).2.2.1
+
+theorem cycle_end (d : Def) (now0 : Int) (evs : List Ev) (e : Int) (he : d.endB = some e)
+    (f : Firing) (hf : f ∈ (exec d now0 evs).fired) : f.clock < e :=
+  (exec_book d now0 evs).1 f hf e he
+
+/-! ## (f) silence -/
 
 theorem apply_stopped (d : Def) (s : St) (e : Ev) (b : Bool) (h : s.ph = .stopped b) :
     (apply d s e).ph = .stopped b ∧ (apply d s e).fired = s.fired := by
   cases e <;> simp [apply, h, step]
 
-/-- once the goroutine has returned nothing fires any more, whatever the clock does -/
-theorem silent_after (d : Def) (evs : List Ev) (s : St) (b : Bool) (h : s.ph = .stopped b) :
+theorem run_stopped (d : Def) (evs : List Ev) (s : St) (b : Bool) (h : s.ph = .stopped b) :
     (run d s evs).ph = .stopped b ∧ (run d s evs).fired = s.fired := by
   induction evs generalizing s with
   | nil => exact ⟨h, rfl⟩
@@ -20,10 +219,110 @@ theorem silent_after (d : Def) (evs : List Ev) (s : St) (b : Bool) (h : s.ph = .
     simp only [run, List.foldl_cons] at this ⊢
     rw [← h2]; exact this
 
-def C13_statement : Prop :=
-  ∀ (d : Def) (evs : List Ev) (s : St) (b : Bool), s.ph = .stopped b →
-    (run d s evs).ph = .stopped b ∧ (run d s evs).fired = s.fired
+/-- once the goroutine has returned (after the last firing, after the end bound, or after it has
+observed the cancellation) nothing fires any more, whatever the clock does -/
+theorem silent_after (d : Def) (now0 : Int) (evs more : List Ev) (h : Stopped (exec d now0 evs)) :
+    (exec d now0 (evs ++ more)).fired = (exec d now0 evs).fired ∧
+    (exec d now0 (evs ++ more)).ph = (exec d now0 evs).ph := by
+  obtain ⟨b, hb⟩ := h
+  rw [exec_append]
+  obtain ⟨h1, h2⟩ := run_stopped d more _ b hb
+  exact ⟨h2, by rw [h1, hb]⟩
 
-theorem C13_holds : C13_statement := silent_after
+/-- a cancellation arriving while the goroutine is blocked is observed at its next step, whatever
+the `select` picks: the goroutine returns without firing -/
+theorem cancel_observed (d : Def) (s : St) (k : Nat) (hb : blocked d s = true) :
+    Stopped (run d s [.cancel, .tick k]) ∧ (run d s [.cancel, .tick k]).fired = s.fired := by
+  unfold blocked at hb
+  cases hph : s.ph with
+  | stopped b => simp [run, apply, step, hph, Stopped]
+  | oneShot c =>
+    have hc : s.cancelled = false := by
+      cases h : s.cancelled with
+      | false => rfl
+      | true =>
+        cases hp : (s.m.peek c).isSome <;> simp [step, hph, h, hp, altIf, pick] at hb
+    have hp : (s.m.peek c).isSome = false := by
+      cases hp : (s.m.peek c).isSome with
+      | false => rfl
+      | true =>
+        obtain ⟨v, hv⟩ := Option.isSome_iff_exists.mp hp
+        simp [step, hph, hc, hv, altIf, pick] at hb
+    simp [run, apply, step, hph, hp, altIf, pick_single, Stopped]
+  | waitStart c st =>
+    have hc : s.cancelled = false := by
+      cases h : s.cancelled with
+      | false => rfl
+      | true =>
+        cases hp : (s.m.peek c).isSome <;> simp [step, hph, h, hp, altIf, pick] at hb
+    have hp : (s.m.peek c).isSome = false := by
+      cases hp : (s.m.peek c).isSome with
+      | false => rfl
+      | true => simp [step, hph, hc, hp, altIf, pick] at hb
+    simp [run, apply, step, hph, hp, altIf, pick_single, Stopped]
+  | loop r t c ce =>
+    have he : (ce.bind s.m.peek).isSome = false := by
+      cases he : (ce.bind s.m.peek).isSome with
+      | false => rfl
+      | true =>
+        cases h : s.cancelled <;> cases hp : (s.m.peek c).isSome <;>
+          simp [step, hph, h, hp, he, altIf, pick] at hb
+    have hc : s.cancelled = false := by
+      cases h : s.cancelled with
+      | false => rfl
+      | true =>
+        cases hp : (s.m.peek c).isSome <;> simp [step, hph, h, hp, he, altIf, pick] at hb
+    have hp : (s.m.peek c).isSome = false := by
+      cases hp : (s.m.peek c).isSome with
+      | false => rfl
+      | true =>
+        obtain ⟨v, hv⟩ := Option.isSome_iff_exists.mp hp
+        simp [step, hph, hc, he, hv, altIf, pick] at hb
+    simp [run, apply, step, hph, hp, he, altIf, pick_single, Stopped]
+
+theorem silent_after_cancel (d : Def) (now0 : Int) (evs more : List Ev) (k : Nat)
+    (hb : blocked d (exec d now0 evs) = true) :
+    (exec d now0 (evs ++ .cancel :: .tick k :: more)).fired = (exec d now0 evs).fired := by
+  have e1 : evs ++ .cancel :: .tick k :: more = (evs ++ [.cancel, .tick k]) ++ more := by simp
+  obtain ⟨hs, hf⟩ := cancel_observed d (exec d now0 evs) k hb
+  rw [← exec_append] at hs hf
+  rw [e1, (silent_after d now0 _ more hs).1, hf]
+
+/-! ## the statement -/
+
+theorem C13_holds : C13_statement :=
+  ⟨never_early, wake_le_clock,
+   one_shot_once, one_shot_fires,
+   cycle_count_le, cycle_count_exact, cycle_progress,
+   cycle_spacing, cycle_end,
+   silent_after, silent_after_cancel⟩
+
+/-! ## the boundary of clause (f): a cancel that RACES a delivered wake-up may be followed by one
+firing (Go's `select` may take the timer case although `ctx.Done()` is ready too). This is not a
+violation of the statement, which is about cancellation the goroutine has observed; it is kept here
+so that the boundary is on the page. -/
+theorem cancel_race_may_fire_once :
+    (exec (.date 10) 0 [.set 10, .cancel, .tick 1]).fired = [{ wake := 10, clock := 10 }] ∧
+    (exec (.date 10) 0 [.set 10, .cancel, .tick 0]).fired = [] := by decide
+
+/-! ## non-vacuity: every hypothesis above is satisfiable, and the behaviours exist -/
+
+/-- a cycle R3 with start 20, interval 10: three settings, each one interval after the last
+delivered time, give exactly three firings and completion; a fourth gives nothing more -/
+example : (exec (.cycle 3 (some 20) 10 none) 0
+      [.set 20, .tick 0, .set 95, .tick 0, .set 105, .tick 0, .set 115, .tick 0, .set 500, .tick 0]).fired
+    = [⟨95, 95⟩, ⟨105, 105⟩, ⟨115, 115⟩] := by decide
+example : (exec (.cycle 3 (some 20) 10 none) 0
+      [.set 20, .tick 0, .set 95, .tick 0, .set 105, .tick 0, .set 115, .tick 0]).ph = .stopped true := by decide
+/-- the end bound: due at 30 and 40, end 40: one firing, nothing at the bound, whichever ready case
+the select takes -/
+example : ∀ c, c < 3 → (exec (.cycle (-1) (some 20) 10 (some 40)) 0
+      [.set 20, .tick c, .set 30, .tick c, .set 40, .tick c, .tick c]).fired = [⟨30, 30⟩] := by decide
+example : MonoEvs 0 [.set 20, .tick 0, .advance 10, .cancel] := by simp [MonoEvs]
+example : ¬ Stopped (exec (.date 10) 0 []) := by simp [Stopped, exec, run, init, Mock.until, Mock.at, Def.origin]
+example : blocked (.date 10) (exec (.date 10) 0 []) = true := by decide
+example : Stopped (exec (.date 10) 0 [.cancel, .tick 0]) := ⟨false, by decide⟩
+example : (exec (.cycle 2 none 10 none) 0 [.tick 0]).ph = .loop 2 0 1 none := by decide
+example : (exec (.cycle 2 none 10 none) 5 []).ph = .waitStart 0 5 := by decide
 
 end Bpmn.Props.C13
